@@ -1,6 +1,7 @@
 package world
 
 import (
+	"io"
 	"net/http"
 	"strings"
 
@@ -164,6 +165,20 @@ func (r *Recorder) WriteHeader(code int) {
 	}
 	r.WroteHeader = true
 	r.Code = code
+}
+
+// ReadFrom makes the recorder an io.ReaderFrom, like net/http's own response writer (io.Copy
+// uses it when the destination offers it). It records the copy as a body write.
+func (r *Recorder) ReadFrom(src io.Reader) (int64, error) {
+	r.Calls = append(r.Calls, "ReadFrom")
+	if r.Trace != nil {
+		*r.Trace = append(*r.Trace, "Write")
+	}
+	if !r.WroteHeader {
+		r.WroteHeader = true
+		r.Code = 200
+	}
+	return 0, nil
 }
 
 func (r *Recorder) Write(b []byte) (int, error) {
